@@ -313,9 +313,12 @@ class Lexer(ITokenizer):
 			if index == -1:
 				break
 
-			prev = max(end, index - 1)
+			escapes = 0
+			while index - 1 - escapes >= end and source[index - 1 - escapes] == '\\':
+				escapes += 1
+
 			end = index + len(pair['close'])
-			if not (source[prev] == '\\'):
+			if escapes % 2 == 0:
 				break
 
 		value = source[begin:end]
